@@ -62,8 +62,20 @@ def content_tree(obj):
             continue
         if k.startswith("_") and k not in ("_use_positive_only_solver", "_positive_only_uses_p_initial", "_use_border_relocator", "_no_regularization_add_to_curvature_diag_value"):
             continue
-        out[k] = compare.digest(compare.canon(d[k]))
+        out[k] = _attr_digest(d[k], 2)
     return out
+
+
+def _attr_digest(v, depth):
+    """digest of an attribute value; plain library objects (settings, over-sampling schemes ...) are opened `depth` levels deep,
+    skipping their cached entries, so that an in-place change of a nested scheme is seen"""
+    if depth > 0 and catalog.is_library_object(v) and hasattr(v, "__dict__") and not hasattr(v, "_array"):
+        skip = set(catalog.cached_names(type(v))) | {"run_time_dict"}
+        items = tuple((k, _attr_digest(x, depth - 1)) for k, x in sorted(v.__dict__.items()) if k not in skip and not k.startswith("__"))
+        return compare.digest(("state", type(v).__name__, items))
+    if isinstance(v, (list, tuple)) and len(v) <= 8 and depth > 0 and any(catalog.is_library_object(x) for x in v):
+        return compare.digest(("seq", tuple(_attr_digest(x, depth - 1) for x in v)))
+    return compare.digest(compare.canon(v))
 
 
 def rebuild_from_contents(obj):
@@ -288,8 +300,12 @@ class PuritySim:
             now = content_tree(obj)
             base = self.content0.get(nid)
             if base is not None and now != base:
-                keys = sorted(k for k in set(now) | set(base) if now.get(k) != base.get(k))
+                # only attributes that existed before and now hold a different value: an attribute that APPEARS later is a
+                # hand-rolled lazy cache (tracked from then on), one that disappears is a reset - neither is a reported value changing
+                keys = sorted(k for k in set(now) & set(base) if now.get(k) != base.get(k))
                 self.content0[nid] = now
+                if not keys:
+                    continue
                 tn = type(obj).__name__
                 if tn == "Preloads":
                     continue  # Preloads.set_* fills its own slots by design; the slots are not reported quantities (DESIGN 4.1)
